@@ -106,6 +106,8 @@ class Engine:
         self.lib_used = set()
         self.unsupported = []
         self.mod_init = False
+        self.static_heap = {}      # objects allocated while evaluating module top levels (persist across paths)
+        self.static_next = -1
         self.cut_memo = {}
         self.cut_stats = {}
         self.reset_path([])
@@ -116,7 +118,7 @@ class Engine:
         self.dpos = 0
         self.pending = []
         self.pc = []
-        self.heap = {}
+        self.heap = {a: h.clone() for a, h in self.static_heap.items()}
         self.next_addr = 1
         self.fresh_n = 0
         self.tfacts = {}
@@ -127,6 +129,8 @@ class Engine:
         self.cur_contract = None
         self.havoced = False
         self.handling_stack = []
+        self.trace_truncated = False
+        self.loop_pc_mark = None
 
     def fresh(self, hint='v'):
         self.fresh_n += 1
@@ -139,6 +143,12 @@ class Engine:
         return VO(self.fresh(hint), proto)
 
     def alloc(self, h):
+        if self.mod_init:
+            a = self.static_next
+            self.static_next -= 1
+            self.static_heap[a] = h
+            self.heap[a] = h
+            return VRef(a)
         a = self.next_addr
         self.next_addr += 1
         self.heap[a] = h
@@ -680,6 +690,10 @@ class Engine:
             self.havoc_heap(self.eval_spec(hx, env, self.ghost_env(env)))
         for (ox, field, typ) in inv.get('havoc_fields', []):
             self.havoc_field(self.eval_spec(ox, env, self.ghost_env(env)), field, typ)
+        for gx in inv.get('havoc_ghost', []):
+            sq = self.eval_spec(gx, env, self.ghost_env(env))
+            if isinstance(sq, VSeq) and sq.ghost is not None:
+                self.havoc_seq_ghost(sq)
         for (ox, segname) in inv.get('havoc_stack', []):
             # the namespace stack grows by an unknown number of entries pushed by earlier iterations
             ref = self.eval_spec(ox, env, self.ghost_env(env))
@@ -700,6 +714,10 @@ class Engine:
         for (ox, segname) in inv.get('havoc_stack', []):
             r = self.eval_spec(ox, env, self.ghost_env(env))
             declared.add(self.heap[r.addr].fields['_data'].addr)
+        for gx in inv.get('havoc_ghost', []):
+            r = self.eval_spec(gx, env, self.ghost_env(env))
+            if isinstance(r, VSeq):
+                declared.add(('ghost', r.name))
         for (ox, field, typ) in inv.get('havoc_fields', []):
             r = self.eval_spec(ox, env, self.ghost_env(env))
             if isinstance(r, VRef):
@@ -708,6 +726,7 @@ class Engine:
                 if isinstance(fv, VRef):
                     declared.add(fv.addr)
         heap_snap = self.heap_snapshot(declared)
+        self.loop_pc_mark = len(self.pc)
         # decide: one more iteration, or exit
         if kind == 'while':
             go = self.truth(self.eval(st.test, env), 'loop%d.guard' % ordn)
@@ -748,12 +767,14 @@ class Engine:
 
     def heap_snapshot(self, declared):
         cn = _Canon(self, shallow=True)
+        cn.skip_ghost = {d[1] for d in declared if isinstance(d, tuple) and d[0] == 'ghost'}
         out = {}
         for a, h in self.heap.items():
             if a in declared:
                 continue
             if isinstance(h, HObj):
-                flds = {k: v for k, v in h.fields.items() if ('f', a, k) not in declared}
+                flds = {k: v for k, v in h.fields.items() if ('f', a, k) not in declared
+                        and not (h.lazy and isinstance(v, VO) and v.name == '%s.%s' % (h.name or ('obj%d' % a), k))}
                 out[a] = 'Obj(%s|%s)' % (h.name, ','.join('%s=%s' % (k, cn.val(v)) for k, v in sorted(flds.items())))
             else:
                 out[a] = cn.heapobj(h)
@@ -810,6 +831,21 @@ class Engine:
         if typ is None and isinstance(old, VC) and old.v is None:
             raise Unsupported('havoc of %s (None on entry) needs a declared type' % name)
         return self.fresh_opaque(name)
+
+    def havoc_seq_ghost(self, sq):
+        """earlier iterations may have probed the lazily produced sequence"""
+        g = sq.ghost
+        p = self.fresh_int('pulled')
+        self.assume(p >= g['pulled'])
+        if not g.get('infinite'):
+            self.assume(p <= sq.length)
+        m = self.fresh_int('maxidx')
+        self.assume(m >= g['maxidx'])
+        g['pulled'] = p
+        g['maxidx'] = m
+        for flag in ('len_called', 'failed_probe', 'len_before_failed_probe', 'neg_probe'):
+            g[flag] = None      # unknown after the havoc: spec accessors refuse to read it
+        g['havoced'] = True
 
     def havoc_field(self, ref, field, typ):
         if not isinstance(ref, VRef) or not isinstance(self.heap[ref.addr], HObj):
@@ -1634,6 +1670,7 @@ import re as _re
 
 _FRESH_RE = _re.compile(r"[A-Za-z_][\w.\[\]'\-]*![0-9]+(?:![0-9]+)*")
 _REF_RE = _re.compile(r'ref!([0-9]+)')
+_CUTNAME_RE = _re.compile(r'(^|_)cut[0-9]+_')
 
 
 class _Canon:
@@ -1684,7 +1721,7 @@ class _Canon:
             return 'O(%s)' % self.term(v.t)
         if isinstance(v, VSeq):
             g = ''
-            if v.ghost is not None:
+            if v.ghost is not None and v.name not in getattr(self, 'skip_ghost', ()):
                 g = '{%s}' % ','.join('%s:%s' % (k, self.term(x) if not isinstance(x, list) else [self.term(y) for y in x])
                                       for k, x in sorted(v.ghost.items()))
             return 'Seq(%s,%s,%s%s)' % (self.nm(v.name), self.term(v.length), v.kind, g)
@@ -1728,8 +1765,23 @@ class _Canon:
         return repr(h)
 
 
+_SYMS_CACHE = {}
+
+
 def _term_syms(t, acc):
-    """names of uninterpreted constants in a z3 term"""
+    """names of uninterpreted constants / functions in a z3 term (cached per AST id)"""
+    tid = t.get_id()
+    hit = _SYMS_CACHE.get(tid)
+    if hit is not None:
+        acc |= hit[0]
+        return
+    mine = set()
+    _term_syms_raw(t, mine)
+    _SYMS_CACHE[tid] = (frozenset(mine), t)
+    acc |= mine
+
+
+def _term_syms_raw(t, acc):
     seen = set()
     stack = [t]
     while stack:
@@ -1764,15 +1816,51 @@ def _engine_cut(self, cut, idx, env):
             raise Unsupported('cut %d: variable %s to abstract is not bound' % (idx, var))
         env.locals[var] = abstract_value(self, env.locals[var], spec, 'cut%d_%s' % (idx, var))
         self.havoced = True
+    if cut.get('forget_iteration') and getattr(self, 'loop_pc_mark', None) is not None:
+        # facts learned since the head of the enclosing loop iteration are dropped (weakening)
+        self.pc = self.pc[:self.loop_pc_mark]
+    for hx in cut.get('havoc_heap', []):
+        self.havoc_heap(self.eval_spec(hx, env, self.ghost_env(env)))
+        self.havoced = True
+    for gx in cut.get('havoc_ghost', []):
+        sq = self.eval_spec(gx, env, self.ghost_env(env))
+        if isinstance(sq, VSeq) and sq.ghost is not None:
+            self.havoc_seq_ghost(sq)
     for nm, ex in cut.get('assume', {}).items():
         self.assume(self.as_z3_bool(self.eval_spec(ex, env, self.ghost_env(env))))
+    for nm, ex in cut.get('suppose', {}).items():
+        # a pure assumption (not checked): recorded in the evidence
+        self.assumptions_used.add('assumed at a cut of %s: %s' % (c.func.split('.')[-1], ex))
+        self.assume(self.as_z3_bool(self.eval_spec(ex, env, self.ghost_env(env))))
     # 3. liveness
-    live = set(cut.get('live', ())) | set(cut.get('abstract', {}))
+    live = set(cut.get('live', ())) | set(cut.get('abstract', {})) | set(cut.get('_auto_live', ()))
     for k in list(env.locals):
-        if k not in live and not k.startswith('__g_') and not k.startswith('__k_'):
+        if (k not in live and not k.startswith('__g_')) or k in cut.get('drop', ()):
             del env.locals[k]
-    if cut.get('forget_trace'):
+    if not cut.get('keep_trace'):
+        # the ghost trace is forgotten at a cut; spec functions that read the trace refuse to
+        # work on a truncated trace (Unsupported), so this cannot make a clause pass
         self.trace = []
+        self.trace_truncated = True
+    # canonical form of lazy objects: drop auto-materialised attribute values (a later read
+    # re-creates the identical symbol)
+    for a, h in self.heap.items():
+        if isinstance(h, HObj) and h.lazy:
+            for k in [k for k, v in h.fields.items()
+                      if isinstance(v, VO) and v.name == '%s.%s' % (h.name or ('obj%d' % a), k)]:
+                del h.fields[k]
+    for (ox, field, typ) in cut.get('havoc_fields', []):
+        ref = self.eval_spec(ox, env, self.ghost_env(env))
+        hh = self.heap[ref.addr]
+        hh.fields[field] = VO('cut%d_%s.%s' % (idx, hh.name, field))
+    for gk in [g for g in self.ghost if isinstance(g, tuple) and g and g[0] in ('attr', 'hasattr')]:
+        # per-path caches of uninterpreted observers: re-creation yields the same term / the
+        # answer already fixed by the path condition
+        del self.ghost[gk]
+    forget = cut.get('forget', [])
+    if forget:
+        self.pc = [f for f in self.pc if not any(w in f.sexpr() for w in forget)]
+        self.tfacts = {k: v for k, v in self.tfacts.items() if not any(w in str(k[0]) for w in forget)}
     # 4. + 5. signature
     cn = _Canon(self)
     parts = []
@@ -1796,22 +1884,29 @@ def _engine_cut(self, cut, idx, env):
     for f in self.pc:
         syms = set()
         _term_syms(f, syms)
-        dead = [s for s in syms if '!' in s and s not in reach and not s.startswith('ref!')]
+        dead = [s for s in syms if (('!' in s and s not in reach and not s.startswith('ref!'))
+                                    or (_CUTNAME_RE.search(s) and s not in live_syms
+                                        and not any(s in t for t in live_syms)))]
         if dead:
             continue
         newpc.append(f)
     self.pc = newpc
     pcs = sorted(cn.nm(f.sexpr()) for f in self.pc)
-    tf = sorted('%s=%s' % (cn.nm(repr(k)), v) for k, v in self.tfacts.items()
-                if not ('!' in str(k[0]) and str(k[0]) not in reach))
-    self.tfacts = {k: v for k, v in self.tfacts.items() if not ('!' in str(k[0]) and str(k[0]) not in reach)}
+    def _tf_dead(k):
+        n = str(k[0])
+        return ('!' in n and n not in reach) or (_CUTNAME_RE.search(n) and n not in live_syms
+                                                 and not any(n in t for t in live_syms))
+    self.tfacts = {k: v for k, v in self.tfacts.items() if not _tf_dead(k)}
+    tf = sorted('%s=%s' % (cn.nm(repr(k)), v) for k, v in self.tfacts.items())
     sig = '\n'.join([state_text, 'PC', '\n'.join(pcs), 'TF', '\n'.join(tf), 'TRACE', cn.nm(repr(self.trace)),
                      'HAVOC %s' % self.havoced])
-    memo = self.cut_memo.setdefault((key, idx), set())
-    self.cut_stats[(key, idx)] = self.cut_stats.get((key, idx), 0) + 1
-    if sig in memo:
+    memo = self.cut_memo.setdefault((key, idx), {})
+    here = tuple(self.dec[:self.dpos])
+    if sig in memo and memo[sig] != here:
+        # an earlier path reached this cut in an identical state: its continuation covers ours
+        self.cut_stats[(key, idx)] = self.cut_stats.get((key, idx), 0) + 1
         raise PathAbort()
-    memo.add(sig)
+    memo[sig] = here
 
 
 Engine.do_cut = _engine_cut
